@@ -1,7 +1,10 @@
 #!/usr/bin/env python3
 # Probe: find_local_time_type (instant -> type) + validate, real text
 import sys, re
-sys.path.insert(0, '/tmp/vprobe')
+import os
+HERE = os.path.dirname(os.path.abspath(__file__))
+OUT = os.environ.get('PROBE_OUT', '/var/tmp')
+sys.path.insert(0, HERE)
 from xprobe import *
 T = Src('/repo/src/offset/local/tz_info/timezone.rs')
 impl = T.impl_body("impl<'a> TimeZoneRef<'a> {")
@@ -58,5 +61,5 @@ f1 = emit_fn(sig, body,
 sig, body = T.fn('unix_time_to_unix_leap_time', impl)
 body = body.replace("while i < self.leap_seconds.len() {", "while i < self.leap_seconds.len()\n            invariant i <= self.leap_seconds@.len(), self.leap_seconds@.len() == 0 ==> unix_leap_time == unix_time,\n            decreases self.leap_seconds@.len() - i\n        {")
 f0 = emit_fn(sig, body, ensures="self.leap_seconds@.len() == 0 ==> r is Ok && r->Ok_0 == unix_time")
-open('/tmp/vprobe/tz2_unit.rs','w').write(PRE + "impl<'a> TimeZoneRef<'a> {\n" + f0 + f1 + "}\n} // verus!\nfn main() {}\n")
+open(os.path.join(OUT, 'tz2_unit.rs'), 'w').write(PRE + "impl<'a> TimeZoneRef<'a> {\n" + f0 + f1 + "}\n} // verus!\nfn main() {}\n")
 print('ok')
